@@ -294,3 +294,114 @@ c11_toggles!(c11_t_valve_enforce_enforce_challenge_valid, Enforce, Enforce, 3, 0
 c11_toggles!(c11_t_valve_enforce_enforce_challenge_silent, Enforce, Enforce, 3, 1);
 c11_toggles!(c11_t_valve_enforce_enforce_challenge_malformed, Enforce, Enforce, 3, 2);
 c11_toggles!(c11_valve_enforce_enforce_challenge_challenge, Enforce, Enforce, 3, 3);
+
+// ------------------------------------------------------------------ Unreal 2
+
+use crate::common::Enc;
+use gamedig::protocols::unreal2;
+
+fn ustr(e: &mut Enc, s: &str) {
+    e.u8(s.len() as u8 + 1);
+    e.bytes(s.as_bytes());
+    e.u8(0);
+}
+
+/// Unreal 2: toggles concrete per instance, outcomes (0 valid, 1 silent)
+/// concrete, numeric fields of the info reply symbolic. Query order: server
+/// info, mutators/rules, players.
+#[cfg(kani)]
+fn u2_toggles(players: GatherToggle, rules: GatherToggle, po: u8, ro: u8) {
+    let addr = any_addr_v4();
+    let (np, mp): (u32, u32) = (kani::any(), kani::any());
+    let mut e = Enc::new();
+    e.u8(0x80).u8(0).u8(0).u8(0).u8(0).le32(1);
+    ustr(&mut e, "ip");
+    e.le32(7777).le32(7778);
+    ustr(&mut e, "Nm");
+    ustr(&mut e, "M");
+    ustr(&mut e, "G");
+    e.le32(np).le32(mp);
+    world().push_data(e.v);
+    let rules_requested = rules != GatherToggle::Skip;
+    let rules_failed = ro != 0;
+    let aborted_at_rules = rules == GatherToggle::Enforce && rules_failed;
+    if rules_requested {
+        if ro == 0 {
+            let mut m = Enc::new();
+            m.u8(0x80).u8(0).u8(0).u8(0).u8(1);
+            ustr(&mut m, "k");
+            ustr(&mut m, "v");
+            world().push_data(m.v);
+            world().push_timeout(); // the greedy follow-up receive
+        } else {
+            world().push_timeout();
+        }
+    }
+    let players_requested = players != GatherToggle::Skip && !aborted_at_rules;
+    if players_requested {
+        if po == 0 {
+            let mut p = Enc::new();
+            p.u8(0x80).u8(0).u8(0).u8(0).u8(2).le32(5);
+            ustr(&mut p, "Al");
+            p.le32(30).le32(7).le32(0);
+            world().push_data(p.v);
+            world().push_timeout();
+        } else {
+            world().push_timeout();
+        }
+    }
+    let gs = unreal2::GatheringSettings {
+        players,
+        mutators_and_rules: rules,
+    };
+    let r = unreal2::query(&addr, &gs, None);
+    match &r {
+        Ok(x) => {
+            assert!(!aborted_at_rules);
+            assert!(x.server_info.num_players == np && x.server_info.max_players == mp);
+            // a skipped or failed section is absent (empty), a gathered one present
+            let want_rules = rules_requested && !rules_failed;
+            assert!(x.mutators_and_rules.rules.len() == if want_rules { 1 } else { 0 });
+            let want_players = players_requested && po == 0;
+            assert!(x.players.players.len() == if want_players { 1 } else { 0 });
+        }
+        Err(e) => {
+            assert!(aborted_at_rules);
+            assert!(e.kind == K::PacketReceive);
+        }
+    }
+    // a skipped section is never requested; requests appear in order
+    let mut i = 1;
+    assert!(sent_is(0, &addr, &[0x79, 0, 0, 0, 0]));
+    if rules_requested {
+        assert!(sent_is(i, &addr, &[0x79, 0, 0, 0, 1]));
+        i += 1;
+    }
+    if players_requested {
+        assert!(sent_is(i, &addr, &[0x79, 0, 0, 0, 2]));
+        i += 1;
+    }
+    assert!(world().n_sends == i);
+    core::mem::forget(r);
+}
+
+macro_rules! c11_u2 {
+    ($name:ident, $p:ident, $r:ident, $po:expr, $ro:expr) => {
+        #[cfg(kani)]
+        #[kani::proof]
+        #[kani::unwind(20)]
+        #[kani::stub(alloc::fmt::format, stub_format)]
+        #[kani::stub(core::slice::memchr::memchr, stub_memchr)]
+        #[kani::stub(encoding_rs::Encoding::decode, stub_encoding_decode)]
+        #[kani::stub(std::io::_print, stub_print)]
+        fn $name() { u2_toggles(GatherToggle::$p, GatherToggle::$r, $po, $ro) }
+    };
+}
+c11_u2!(c11_unreal2_skip_enforce_valid, Skip, Enforce, 0, 0);
+c11_u2!(c11_unreal2_enforce_skip_valid, Enforce, Skip, 0, 0);
+c11_u2!(c11_unreal2_try_enforce_silent_rules, Try, Enforce, 0, 1);
+c11_u2!(c11_unreal2_try_try_silent_players, Try, Try, 1, 0);
+c11_u2!(c11_t_unreal2_skip_skip, Skip, Skip, 0, 0);
+c11_u2!(c11_t_unreal2_try_try_valid, Try, Try, 0, 0);
+c11_u2!(c11_t_unreal2_enforce_try_silent_rules, Enforce, Try, 0, 1);
+c11_u2!(c11_t_unreal2_skip_try_silent_rules, Skip, Try, 0, 1);
